@@ -17,7 +17,7 @@ RULE = (
     'key, action key, action kind (uniform in [-1,1], bang-bang, held-constant, zero) and episode_length in {8, 60, 1000}, float32, through '
     'training.wrap(env, episode_length, 1); quick: batch 8 x 200 steps, thorough: batch 128 x 1000 steps, one lax.scan. Oracle: '
     'observation size, done = 0 at reset, action size accepted, the whole rollout repeated from the same keys is bit-identical, member 0 '
-    'is bit-identical when all other members get other keys and actions, with constant actions the second episode replays the first, and at every step obs/reward/done/q/qd are finite, done in '
+    'is bit-identical when all other members get other keys and actions, with constant actions the second episode replays the first, an eager step of the unwrapped env evaluated twice on one State object is bit-identical, and at every step obs/reward/done/q/qd are finite, done in '
     '{0,1}, | |link rotation| - 1 | <= 2e-6. Non-trivial: the rollout contains a termination or truncation, or >= 200 steps with '
     '|action| > 0.5. Distinct: (env, backend, keys, action kind, episode_length).')
 ASSUMPTIONS = ['the property quantifies over all action sequences; a sampled search only covers the sequences run (stated in the evidence)',
@@ -152,21 +152,33 @@ def check(c, ctx=None):
           raise Violation('episode_replay', f'{where}: with constant actions the second episode of member 0 differs from its first in {k} at episode '
                           f'step {t} ({o[k][a][t]} vs {o[k][b_][t]}): something other than the reset state and the actions enters the step',
                           labels={'check': 'episode_replay', 'env': c['env']})
+  # eager purity of the unwrapped environment: stepping the same State object twice gives the same result (every
+  # bundled step() mutates state.metrics in place; nothing may read it back)
+  eager = False
+  if c.get('eager'):
+    eager = True
+    s0 = jax.jit(env.reset)(rkeys[0])
+    outs = [env.step(s0, acts[0, 0]) for _ in range(2)]
+    for name, get in (('reward', lambda s: s.reward), ('obs', lambda s: s.obs), ('done', lambda s: s.done), ('q', lambda s: s.pipeline_state.q)):
+      u, v = np.asarray(get(outs[0])), np.asarray(get(outs[1]))
+      if not np.array_equal(u, v, equal_nan=True):
+        raise Violation('eager_purity', f'{where}: env.step(state, action) evaluated twice (eagerly) on the same State object returns two different '
+                        f'{name}: {u} vs {v}', labels={'check': 'eager_purity', 'env': c['env']})
   ended = bool(o['done'].any())
   nt = ended or (c['kind'] in ('uniform', 'bang_bang') and c['nsteps'] >= 200)
   return dict(fp=fingerprint(c), nontrivial=bool(nt), evals=c['batch'] * c['nsteps'],
               labels=[f'env:{c["env"]}', f'backend:{c["backend"]}', f'kind:{c["kind"]}', f'episode_length:{c["episode_length"]}',
-                      'has_episode_end' if ended else 'no_episode_end', 'episode_replay_checked' if replayed else 'no_replay_check', 'has_truncation' if o['trunc'].any() else 'no_truncation'],
+                      'has_episode_end' if ended else 'no_episode_end', 'episode_replay_checked' if replayed else 'no_replay_check', 'eager_purity_checked' if eager else 'no_eager_check', 'has_truncation' if o['trunc'].any() else 'no_truncation'],
               sample={k: c[k] for k in ('env', 'backend', 'kind', 'episode_length', 'batch', 'nsteps', 'reset_key', 'action_key')} |
               {'episode_ends': int(o['done'].sum()), 'truncations': int(o['trunc'].sum()), 'max_rotation_norm_error': rd})
 
 
 @st.composite
-def cases(draw, env, backend, batch, nsteps, ep_lens, kinds=None):
+def cases(draw, env, backend, batch, nsteps, ep_lens, kinds=None, eager=False):
   k32 = st.lists(st.integers(0, 2**32 - 1), min_size=2, max_size=2)
   return {'env': env, 'backend': backend, 'batch': batch, 'nsteps': nsteps, 'episode_length': draw(st.sampled_from(ep_lens)),
           'kind': draw(st.sampled_from(kinds or (KINDS[:3] + ['uniform', 'bang_bang', 'zero']))), 'reset_key': draw(k32), 'action_key': draw(k32),
-          'other_key': draw(k32)}
+          'other_key': draw(k32), 'eager': eager}
 
 
 COST = {'humanoid': 4, 'humanoidstandup': 4, 'ant': 3, 'walker2d': 2, 'halfcheetah': 2, 'hopper': 2, 'pusher': 2, 'swimmer': 1}
@@ -194,7 +206,7 @@ def run_task(task, ctx):
   # one more rollout with constant actions for every combination: the episode-replay oracle needs them
   from vf.harness import derive_seed
   const = cases(task['env'], task['backend'], task['batch'], task['nsteps'], [e for e in task['ep_lens'] if e <= 60] or task['ep_lens'],
-                kinds=['held', 'zero', 'held'])
+                kinds=['held', 'zero', 'held'], eager=True)
   ctx.run_given(const, lambda c: check(c, ctx), 1, derive_seed(task['seed'], 'const'), skip_simplest=True)
 
 
